@@ -24,6 +24,7 @@ def _patch_recorders():
 
     def wrap(orig):
         def rec(*a, **k):
+            _tick()
             r = orig(*a, **k)
             if k.get("problem", a[1] if len(a) > 1 else None) == "min":
                 _min_record.append([dict(x) for x in r])
@@ -32,11 +33,37 @@ def _patch_recorders():
         rec._balm_orig = orig
         return rec
 
+    import biobalm._sd_attractors.attractor_candidates as ac
+
+    def wrapfp(orig):
+        def rec(*a, **k):
+            _tick()
+            return orig(*a, **k)
+
+        rec._balm_orig = orig
+        return rec
+
+    if not hasattr(ac.compute_fixed_point_reduced_STG, "_balm_orig"):
+        ac.compute_fixed_point_reduced_STG = wrapfp(ac.compute_fixed_point_reduced_STG)
     if not hasattr(ems.trappist, "_balm_orig"):
         ems.trappist = wrap(ems.trappist)
     if not hasattr(sdm.trappist, "_balm_orig"):
         sdm.trappist = wrap(sdm.trappist)
     _patched = True
+
+
+_calls = [0]
+_fail_at = [None]
+
+
+class Injected(RuntimeError):
+    pass
+
+
+def _tick():
+    _calls[0] += 1
+    if _fail_at[0] is not None and _calls[0] == _fail_at[0]:
+        raise Injected("injected solver failure")
 
 
 LIMS = [None, None, None, 0, 1, 2, 3, 4, 5, 6, 8]
@@ -105,6 +132,8 @@ def apply_op(sd, ni, op):
     kind = op[0]
     n = len(sd)
     del _min_record[:]
+    _calls[0] = 0
+    _fail_at[0] = op[-1]["fail_at"] if isinstance(op[-1], dict) and "fail_at" in op[-1] else None
     try:
         if kind == "one":
             i = op[1] % n
@@ -150,6 +179,7 @@ def apply_op(sd, ni, op):
         if kind == "skiprem":
             root = dict(sd.node_data(0)["space"])
             r = sd.skip_remaining()
+            _fail_at[0] = None
             mins = [ni.sp(root | x) for x in _min_record[0]] if _min_record else []
             return str(int(r)), "SKIPREM " + " ".join(mins)
         if kind == "aseeds":
@@ -159,11 +189,20 @@ def apply_op(sd, ni, op):
             r = sd.expand_block(find_motif_avoidant_attractors=bool(op[1]), size_limit=op[2],
                                 optimize_source_nodes=False)
             return str(bool(r)).lower(), None
+        if kind == "blockx":
+            r = sd.expand_block(find_motif_avoidant_attractors=bool(op[1]), size_limit=op[2],
+                                optimize_source_nodes=bool(op[3]), exact_attractor_detection=bool(op[4]))
+            return str(bool(r)).lower(), None
+        if kind == "scc":
+            r = sd.expand_scc(find_motif_avoidant_attractors=bool(op[1]))
+            return str(bool(r)).lower(), None
         if kind == "pickle":
             return "none", "NOP"
         if kind == "reclaim":
             sd.reclaim_node_data()
             return "none", "NOP"
+    except Injected:
+        return "inj", None
     except RuntimeError as e:
         if "stable motifs" in str(e):
             cmd = _cmd_for_error(sd, ni, op, n)
@@ -229,11 +268,17 @@ def run_plain_history(case, judge_leaves=False, literal=True):
     for k, op in enumerate(ops):
         if op[0] == "pickle":
             sd = pickle.loads(pickle.dumps(sd))
+        nbefore = len(sd)
         ret, cmd = apply_op(sd, ni, op)
+        _fail_at[0] = None
         d = common.dump_sd(sd, ni)
         tags.add("op:" + op[0])
         if ret == "err":
             tags.add("motif-limit-error")
+        if ret == "inj":
+            tags.add("injected-solver-failure")
+        if ret == "false":
+            tags.add("early-stop:" + op[0])
         if d != prev:
             changed += 1
         prev = d
@@ -249,8 +294,24 @@ def run_plain_history(case, judge_leaves=False, literal=True):
         else:
             lines.append(cmd)
             expect.append(("obs", f"{ret} {d}", f"op{k}:{op[0]}"))
-        lines.append("CHECK " + d)
-        expect.append(("judge", "OK", f"after op{k}:{op[0]}"))
+        if case.get("check", True):
+            lines.append("CHECK " + d)
+            expect.append(("judge", "OK", f"after op{k}:{op[0]}"))
+        if case.get("judge_contract") and op[0] in ("bfs", "dfs"):
+            start = op[1] % nbefore
+            if ret == "true" :
+                lines.append(f"TRUECOMPLETE {start} " + d)
+                expect.append(("judge", "OK", f"contract of op{k}:{op[0]} returning True"))
+            if ret == "false" and op[2] is None:
+                lines.append(f"FALSESTUB {start} " + d)
+                expect.append(("judge", "OK", f"contract of size-limited op{k}:{op[0]} returning False"))
+        if case.get("judge_contract") and op[0] == "min" and ret == "false" and op[1] % nbefore == 0:
+            lines.append("FALSESTUB 0 " + d)
+            expect.append(("judge", "OK", f"contract of size-limited op{k}:{op[0]} returning False"))
+        if case.get("judge_leaves_after") and ret == "true" and op[0] in case["judge_leaves_after"] and (
+                op[0] not in ("bfs", "dfs", "min") or (op[1] % nbefore == 0 and (op[0] == "min" or op[2] is None))):
+            lines.append("LEAVES " + d)
+            expect.append(("judge", "OK", f"minimal trap spaces after op{k}:{op[0]} reported completion"))
     final = prev
     if case.get("final_full") and ret == "true":
         lines.append("COMPLETE " + final)
